@@ -97,7 +97,7 @@ Proof.
     + destruct H as (Hev & Ha & Hr). rewrite Hev.
       destruct (trigger_fire (trig c) s (blen v)); cbn [ghost fold_left gstep fst snd].
       * split.
-        { unfold content; rewrite Ha. cbn [fst app concat]. rewrite app_nil_r. reflexivity. }
+        { unfold content; rewrite Ha. cbn [fst app concat]. Show. rewrite app_nil_r. reflexivity. }
         { cbn [snd map]. rewrite <- Hact.
           eapply Arch_inv_ext; [exact Hr|].
           apply do_roll_arch; [|exact L0].
